@@ -579,6 +579,21 @@ theorem step1_app_dup (retry : Cl → Option (Cl × Res)) (nx : Nat) (c : Cl) (e
   unfold step1
   simp [hg, hact, ho, hk, hf, hc]
 
+/-- the client's own application message coming back from the relay: `CannotDecryptOwnMessage`, handled from the records -/
+theorem step1_app_own (retry : Cl → Option (Cl × Res)) (nx : Nat) (c : Cl) (e : Ev) (mid ts tok : Nat)
+    (hg : routes c e = true) (hact : c.g.active = true) (ho : outerOpens (withSecret c).g e = true)
+    (hk : e.kind = .app mid ts tok) (hle : epochOf e.path ≤ epochOf c.g.path)
+    (hpast : epochOf e.path < epochOf c.g.path → c.g.past.contains e.path = true)
+    (hf : (e.sender == c.id) = true) :
+    step1 retry nx c e = ownMessage (withSecret c) e := by
+  have h1 : ¬ epochOf c.g.path < epochOf e.path := by omega
+  have h2 : ¬ (epochOf e.path < epochOf c.g.path ∧ ¬ e.path ∈ c.g.past) := by
+    intro ⟨a, b⟩; exact b (by simpa using hpast a)
+  have hf' : e.sender = c.id := by simpa using hf
+  unfold step1
+  simp [hg, hact, ho, hk, hf']
+  rw [if_neg h1, if_neg h2]
+
 /-- the dedup record of event number `n` does not block re-processing (absent, or neither Failed nor EpochInvalidated) -/
 def NotBlocked (c : Cl) (n : Nat) : Prop := ∀ r, getRec c n = some r → r.state ≠ 3 ∧ r.state ≠ 4
 
@@ -662,6 +677,22 @@ theorem secretsOK (h : AppStored c e row c') (hs : SecretsOK c.g) : SecretsOK c'
   rw [h.path]
   have := secretsOK_ensure c.g hs ep q hq
   rwa [ensureSecret_path] at this
+
+theorem ready (h : AppStored c e row c') (hr : Ready c) : Ready c' :=
+  ⟨h.hasGroup ▸ hr.hasGroup, h.active ▸ hr.act, h.retention ▸ hr.ret, h.secretsOK hr.sec,
+   fun s hm => by rw [h.path]; exact hr.below s (h.mgr ▸ hm), by rw [h.recNid, h.nid]; exact hr.nid⟩
+
+/-- events with other numbers and ciphertexts stay unseen and unconsumed -/
+theorem keepsFresh (h : AppStored c e row c') (E : List Ev)
+    (hf : ∀ x ∈ E, getRec c x.n = none ∧ x.cipher ∉ c.g.consumed) (hd : ∀ x ∈ E, x.n ≠ e.n ∧ x.cipher ≠ e.cipher) :
+    ∀ x ∈ E, getRec c' x.n = none ∧ x.cipher ∉ c'.g.consumed := by
+  intro x hx
+  refine ⟨by rw [h.recs x.n (hd x hx).1]; exact (hf x hx).1, ?_⟩
+  rw [h.consumed]
+  intro hm
+  rcases List.mem_cons.mp hm with y | y
+  · exact (hd x hx).2 y
+  · exact (hf x hx).2 y
 
 end AppStored
 
